@@ -26,6 +26,7 @@ NONTRIVIAL = {
     "c12": lambda i: isinstance(i, dict) and len(i.get("arts") or []) > 1,
     "c13": lambda i: isinstance(i, dict) and len(i.get("ops") or []) > 1 and len(i.get("mods") or []) > 0,
     "c14": lambda i: isinstance(i, dict) and len(i.get("arts") or []) > 1,
+    "c01": lambda i: isinstance(i, dict) and sum(len(f.get("msgs") or []) for f in i.get("files", [])) > 0,
     "c15": lambda i: isinstance(i, dict) and len(i.get("name") or []) > 1,
 }
 
@@ -99,5 +100,13 @@ PROPS = {
         "rule": "5 otherwise valid runs x {fault-free control; unreadable / unparsable input / no target; output write error / short write; each of 8 bad artifacts (absolute name, climbing name, append to a file never generated, empty injection name, unknown artifact, failing generator template, failing custom template, failing template append) at every index; a failing post-processor at each chain position after each artifact; each of 6 file-system operations (MkdirAll, Stat, OpenFile, Write, Close, short Write) of each custom file} + seeded random combinations (soft error before the fault, several faults at once); every case is a REAL CHILD PROCESS (`pgsharness plugin`, default stdin/stdout, the library's own os.Exit): exit status, stdout bytes and the cause on stderr are observed; non-trivial = at least 2 artifacts",
         "level_text": "Theorems over all fault plans (C14_fail_stop): the modelled pipeline ends with exit status 1 and a named cause exactly when a planned fault takes effect, and then no response byte was written unless the fault is the short write of the output; a fault-free plan exits 0 with one complete response. PARTIAL by nature: that os.Exit really terminates the process and that nothing else writes to stdout is runtime behaviour - established only by the correspondence run on real child processes.",
         "level_note": "Trusted: the model of the pipeline order (input, artifacts in order, file-system operations of writeFile in order, output write); afero.WriteFile's use of OpenFile/Write/Close; the harness' fault-injecting reader/writer/file system; classification of the stderr text into cause tags.",
+    },
+    "C01": {
+        "engines": [("c01", "main")],
+        "lean": ["PgsVerif.Props.C01"],
+        "category": "exploration",
+        "rule": "curated worlds (Struct/Value/ListValue shape, packageless files, map entry between nested messages, extension-only import, public re-export) + seeded random protodesc-valid worlds (1-5 files, DAG imports with public re-exports, shared/nested/empty packages, proto2 omitted/spelled and proto3, nesting depth <= 4, map entries interleaved among nested types, real and synthetic oneofs, extensions at file and message scope, services, any target subset incl. shuffled order, FileDescriptorSet entry point, bidirectional mode); the real AST is navigated from Packages()/Targets() through every containment accessor, every entity identified by the pointer of the descriptor it exposes; non-trivial = at least one message",
+        "level_text": "THEOREMS PENDING (level exploration until proved): executable Lean model of ast.go's hydration (index timeline, every mustSeen at its moment) + declared containment image; Phi_C01 (no failure, targets, packages, exactly-once reachability, every listing = declared children in order, all-listings as multisets) evaluated on every navigated AST.",
+        "level_note": "Trusted: protodesc.NewFiles defines 'valid request' (every generated world must pass it); descriptor pointer identity as entity identity.",
     },
 }
